@@ -308,6 +308,58 @@ def acquire_while_busy(v):
     return n
 
 
+def acquire_unknown_index(v):
+    """An ACQUIRE whose policy index belongs to no protect entry is IGNORED - whatever the daemon holds at that moment: no IKE_SA with the peer, an idle
+    established one, one with a request outstanding.  Ignored means: no datagram, the table / IKE_SAs / kernel as before, and afterwards an ACQUIRE with a
+    known index is still negotiated on the existing IKE_SA and the peer's requests on it are still answered."""
+    import probes
+    n = 0
+    for situation in ('none', 'idle', 'busy'):
+        w = wd.World(seed=common.SEED, opts={'dpd': 50, 'lifetime': 500})
+        try:
+            if situation != 'none':
+                w.establish('A')
+            if situation == 'busy':
+                sa = w.sas('A')[0]
+                sa.start_dpd_at = w.now - 1
+                outstanding = w.timer('A', sa, 'check_dead_peer_detection_timer')
+            before = probes.world_snapshot(w)
+            listed = [bytes(s.my_spi) for s in w.ctl['A'].ike_sas if s.state.name != 'INITIAL']
+            out = w.acquire('A', sport=0, dport=0, index=4242)
+            n += 1
+            after = probes.world_snapshot(w)
+            # (observation O-3: a blank INITIAL IKE_SA may be left listed; a busy IKE_SA queues the event and ignores it when its turn comes)
+            diff = [d for d in probes.diff_snapshots(before, after) if 'INITIAL' not in str(d) and not (situation == 'busy' and '.pending' in str(d))]
+            if out is not None or [bytes(s.my_spi) for s in w.ctl['A'].ike_sas if s.state.name != 'INITIAL'] != listed or (situation != 'none' and diff):
+                v.violation(f'an ACQUIRE for an unknown policy index is not ignored (IKE_SA with the peer: {situation}): '
+                            f'{"a datagram is sent; " if out is not None else ""}{diff[:3]}', {'situation': situation}, signature={'component': 'acquire:unknown', 'situation': situation})
+                continue
+            if situation == 'none':
+                continue
+            if situation == 'busy':
+                res = w.dispatch('B', outstanding, 'A')
+                if w.dispatch('A', res, 'B') is not None:
+                    v.violation('the queued ACQUIRE for an unknown policy index is negotiated when its turn comes', {}, signature={'component': 'acquire:unknown-queued'})
+                    continue
+            # the peer's liveness probe on the IKE_SA is still answered, a known index still rides on it
+            b = w.sas('B')[0]
+            b.start_dpd_at = w.now - 1
+            probe = w.timer('B', b, 'check_dead_peer_detection_timer')
+            ans = w.dispatch('A', probe, 'B')
+            if ans is None:
+                v.violation(f'after an ignored ACQUIRE (unknown index, {situation}) the peer\'s request on the IKE_SA is no longer answered', {}, signature={'component': 'acquire:unknown-after', 'what': 'dpd'})
+                continue
+            w.dispatch('B', ans, 'A')
+            nxt = w.acquire('A', sport=0, dport=0)
+            if nxt is None or W.dec_header(bytes(nxt))['xchg'] != W.CREATE_CHILD_SA:
+                v.violation(f'after an ignored ACQUIRE (unknown index, {situation}) a known index is not negotiated on the existing IKE_SA', {}, signature={'component': 'acquire:unknown-after', 'what': 'reuse'})
+        except wd.Escape as ex:
+            v.violation(f'acquire for an unknown index ({situation}): {ex}', {}, signature={'component': 'acquire:unknown-escape'})
+        finally:
+            w.close()
+    return n
+
+
 def cfg(max_steps):
     return ('SPECIFICATION Spec\nCONSTANTS\n Configs = {{1}, {1, 2}, {3}, {1, 2, 3}, {4, 5}, {1, 2, 3, 4, 5}}\n MaxSteps = %d\nINVARIANT AfterStart\nINVARIANT AcquireMaps\nPROPERTY AfterStop\n'
             'VIEW View\nCHECK_DEADLOCK FALSE\n' % max_steps)
@@ -339,7 +391,7 @@ def run(tier, replay=None):
         if err:
             v.violation(err, {'behaviour': [s[0] for s in steps[:done + 1]]}, signature={'component': 'spd', 'what': err.split(':')[0][:40]})
     n_acq = acquire_mapping(v, tier)
-    n_busy = acquire_while_busy(v)
+    n_busy = acquire_while_busy(v) + acquire_unknown_index(v)
     # Ike.tla CtlAcquire (queue on the IKE_SA with that peer / start one): every divergence right after an ACQUIRE in the replayed behaviours belongs here
     from checks import ikeprop
     ike_cov = dict(ikeprop.run(v, ['init'] if tier == 'quick' else ['init', 'estab', 'init3'], limit=700 if tier == 'quick' else None,
